@@ -260,7 +260,8 @@ func c15Gen(rt *rapid.T) c15Case {
 		}
 		return p
 	}
-	n := 13 - rapid.IntRange(1, 13).Draw(rt, "blocks") // 0..12, biased towards many blocks
+	// 0..12 blocks, biased towards many (the table keeps shrinking towards few blocks)
+	n := []int{0, 1, 2, 3, 4, 5, 6, 7, 8, 9, 10, 11, 12, 5, 6, 7, 8, 9, 10, 11, 12, 12}[rapid.IntRange(0, 21).Draw(rt, "blocks")]
 	resW := rapid.SampledFrom([][]int64{
 		{0, 0, 300000, 3600000}, {0, 300000, 300000, 3600000}, {0, 300000, 3600000, 3600000}, {0, 300000}, {300000, 3600000}, {0},
 	}).Draw(rt, "resMix")
